@@ -158,6 +158,19 @@ CHECKS["C13"] = dict(
     design="§7 C13",
 )
 
+CHECKS["C20"] = dict(
+    text=("Lean: the null-skipping _nb_reduce without initial value equals the fold of the non-null values seeded by the first of them (null when all are null); "
+          "for EVERY split into chunks (any thread count, all-null and single-element chunks included) reducing the chunk results while skipping null "
+          "results equals the one-pass min / max (associativity + closure of the source's comparison reducers, which are re-translated from util.py and "
+          "proved equal to the model), the sum of chunk sums / counts equals the sum / count; max is member and upper bound; bools_to_categorical: bit i of "
+          "the row mask is set iff column i is true, so the label names exactly the true columns (for any number of columns); pretty_cut: with sorted edges "
+          "searchsorted puts x into (edge[i-1], edge[i]]. Correspondence: nanops.* vs NumPy / exact rational oracles and the Lean reduce_1d model over "
+          "exhaustive null placements x threads 1..8, 2-D axes, nb_dot over ndarray/pandas/polars, all small boolean frames, edge grids incl. values on edges."),
+    note="PARTIAL: the chunk theorems are stated over the lists of non-null integers; the executable Val-level model reduce1d is tied to them by the driver's model=spec echo on every case rather than by a Lean theorem; an EMPTY chunk (n_threads > len) makes the source read arr[0] of an empty array (undefined in the model) - exercised, no wrong result observed; mean/var/std are exact only in rational arithmetic (float results compared to 1e-9).",
+    technique="Lean 4 proof (fold/chunk homomorphism, testBit induction, sorted-search lemma) + reducer translation + differential correspondence against NumPy",
+    design="§7 C20",
+)
+
 NOT_APPLICABLE: list[dict] = []
 
 
